@@ -456,9 +456,11 @@ class Consumer(object):
         # Keep track of state for debugging
         self._state = "stopped"
 
-        # Clear and possibly callback our start() Deferred
+        # Clear and possibly callback our start() Deferred. (It is gone already
+        # when cancelling a pending shutdown()'s commit above made the
+        # shutdown stop us.)
         self._start_d, d = None, self._start_d
-        if not d.called:
+        if d is not None and not d.called:
             d.callback(self._last_processed_offset)
 
         # Return the offset of the message we last processed.
